@@ -231,12 +231,27 @@ func storesOf(info *types.Info, fd *ast.FuncDecl) (pkgVars map[string]token.Pos,
 		}
 		for i, l := range as.Lhs {
 			lo := identObj(info, l)
-			if lo == nil {
-				continue
+			if lo == nil || isPkgLevelVar(lo) || lo == recvObj {
+				continue // only locals can be aliases
 			}
 			if u, ok := unparen(as.Rhs[i]).(*ast.UnaryExpr); ok && u.Op == token.AND {
 				if ro := rootObject(info, u.X); ro != nil && (isPkgLevelVar(ro) || ro == recvObj) {
 					alias[lo] = u.X
+				}
+				continue
+			}
+			// a slice / pointer / map taken out of package or receiver storage shares that storage
+			// (popped := StateSymStack[a:b]; popped[i].f = …)
+			rhs := unparen(as.Rhs[i])
+			if _, isCall := rhs.(*ast.CallExpr); isCall {
+				continue
+			}
+			if t := info.TypeOf(rhs); t != nil {
+				switch t.Underlying().(type) {
+				case *types.Slice, *types.Pointer, *types.Map:
+					if ro := rootObject(info, rhs); ro != nil && ro != lo && (isPkgLevelVar(ro) || ro == recvObj) {
+						alias[lo] = rhs
+					}
 				}
 			}
 		}
@@ -306,6 +321,27 @@ func storesOf(info *types.Info, fd *ast.FuncDecl) (pkgVars map[string]token.Pos,
 		return true
 	})
 	return
+}
+
+// stackSlotWriters lists the generated functions that store into the parse stack's slots (package-level
+// StateSymStack or the receiver's StackSym), directly or through a local slice / pointer taken from it.
+func stackSlotWriters(sk *Skeleton) []string {
+	sf := skeletonFuncs(sk)
+	var writers []string
+	for fd, n := range sf.names {
+		if n == "GetToken" {
+			continue
+		}
+		pv, rf := storesOf(sk.Info, fd)
+		if _, ok := pv["StateSymStack"]; ok {
+			writers = append(writers, n)
+		}
+		if _, ok := rf["StackSym"]; ok {
+			writers = append(writers, n)
+		}
+	}
+	sort.Strings(writers)
+	return writers
 }
 
 // readsOf lists package-level variables read in fd.
